@@ -1,5 +1,6 @@
-from . import p_state, p_docopt, p_engine
+from . import p_state, p_docopt, p_engine, p_find
 PROPS = {}
 PROPS.update(p_state.PROPS)
 PROPS.update(p_docopt.PROPS)
 PROPS.update(p_engine.PROPS)
+PROPS.update(p_find.PROPS)
